@@ -82,7 +82,7 @@ func genC04(r *Rng, n int, tier string, emit func(Case)) {
 			code["inline"] = true // #{...} interpolation
 		}
 		var doc []interface{}
-		switch rr.Intn(7) {
+		switch rr.Intn(9) {
 		case 0:
 			doc = []interface{}{code}
 		case 1:
@@ -95,6 +95,11 @@ func genC04(r *Rng, n int, tier string, emit func(Case)) {
 			doc = []interface{}{nEach("it", "", eArr(eNum("1"), eNum("2")), nTag("li", false, nil, code))}
 		case 5:
 			doc = []interface{}{nRaw(sVar("w", eNum("1"))), code, nText("}")}
+		case 7:
+			// below a script / style tag an escaping construct still escapes (`script.` + `var user = "#{user.name}";`)
+			doc = []interface{}{nTag("p", false, nil, nText("before")), nTag("script", false, nil, nText("var u = \""), code, nText("\";")), nTag("p", false, nil, code)}
+		case 8:
+			doc = []interface{}{nTag("style", false, nil, code), nTag("div", false, nil, nTag("script", false, nil, nTag("b", true, nil, code)))}
 		default:
 			doc = []interface{}{nTag("div", false, nil, nTag("span", true, nil, nText("{"), code, nText("}}")))}
 		}
